@@ -100,8 +100,8 @@ def run(ctx, cases_override=None):
         if th:
             plan = [
                 ("micro", cfg("Spec", 2, 1, "0, 1, 2, 3", "0, 1", ALLP, "VIEW view\nINVARIANTS " + INVS)),
-                ("macro3", cfg("MacroSpec", 3, 1, "0, 1, 2, 3", "0", ALLP, "VIEW view\nPROPERTIES Prop_C17")),
-                ("macro2", cfg("MacroSpec", 2, 2, "0, 1, 2, 3", "0, 1", ALLP, "VIEW view\nPROPERTIES Prop_C17")),
+                ("macro3", cfg("MacroSpec", 3, 0, "0, 1, 2, 3", "0", ALLP, "VIEW view\nPROPERTIES Prop_C17")),
+                ("macro2", cfg("MacroSpec", 2, 1, "0, 1, 2, 3", "0, 1", ALLP, "VIEW view\nPROPERTIES Prop_C17")),
             ]
         else:
             plan = [
